@@ -97,9 +97,16 @@ impl<'recon> ScanState<'recon> {
         let padding_needed = bit_writer.padding_bits();
         if padding_needed != 0 {
             let bits = if let Some(padding_bitstream) = padding_bitstream {
-                padding_bitstream
-                    .read_bits(padding_needed)
-                    .map_err(|_| Error::InvalidData)?
+                // Padding bits are recorded one by one in the order they appear in the JPEG
+                // stream, so the first one is the most significant of this group.
+                let mut bits = 0u32;
+                for _ in 0..padding_needed {
+                    let bit = padding_bitstream
+                        .read_bits(1)
+                        .map_err(|_| Error::InvalidData)?;
+                    bits = (bits << 1) | bit;
+                }
+                bits
             } else {
                 (-1i32) as u32
             };
